@@ -23,6 +23,7 @@ def run(chk):
     plan = [
         dict(flavour="asan-ubsan", scen="det", runs=(1200, 30000), opts={"cb": 1, "varyScale": 1}),
         dict(flavour="rel", scen="det", runs=(800, 20000), opts={"cb": 2, "varyScale": 1, "maxMovable": 16}),
+        dict(flavour="asan-ubsan", scen="passes", runs=(600, 20000), opts={"varyScale": 10, "maxMovable": 14}),
     ]
     model_replay_validate(chk, "DetailedRows", "DetailedRows_legal_" + chk.tier, "row lists of detailed placement: every feasible swap/insert sequence (legal scope)", ("C02",))
     model_replay_validate(chk, "DetailedRows", "DetailedRows_orient_" + chk.tier, "row lists of detailed placement: every feasible swap/insert sequence (orient scope)", ("C02",))
